@@ -114,7 +114,7 @@ print("@@" + json.dumps({"done": len(out)}))
 
 RUN_LISTS_CHILD = r'''
 import sys, json, importlib
-moddir, modname, nfun, outfile = sys.argv[1], sys.argv[2], int(sys.argv[3]), sys.argv[4]
+moddir, modname, funs, outfile = sys.argv[1], sys.argv[2], json.loads(sys.argv[3]), sys.argv[4]
 sys.path.insert(0, moddir)
 import warnings
 warnings.simplefilter("ignore")
@@ -122,37 +122,50 @@ mod = importlib.import_module(modname)
 if not mod.__file__.endswith(".so"):
     print("@@" + json.dumps({"fatal": "not an extension: %s" % mod.__file__})); sys.exit(3)
 ''' + OBS_SRC + r'''
-res = []
-for i in range(nfun):
+res = {}
+for i in funs:
     f = getattr(mod, "f%d" % i)
     try:
         r = [obs(x) for x in f()]
     except BaseException as e:
         r = "E:" + type(e).__name__
-    res.append(r)
+    res[str(i)] = r
 json.dump(res, open(outfile, "w"))
-print("@@" + json.dumps({"done": nfun}))
+print("@@" + json.dumps({"done": len(funs)}))
 '''
 
 
-def list_module(exprs, per_fun=120):
+def list_module(exprs, per_fun=120, solo=()):
     """A module whose functions f0, f1, ... each return a list of the given expressions
-    (one expression per source line).  Returns (source, index) where index[i] = (function
-    number, position in the list, source line) of expression i."""
+    (one expression per source line); the expressions whose position is in `solo` get a
+    function of their own.  Returns (source, index, nfun, solo_functions) where
+    index[i] = (function number, position in the list, source line) of expression i."""
     lines = ["# cython: language_level=3", ""]
-    index = []
-    nfun = 0
-    for start in range(0, len(exprs), per_fun):
-        chunk = exprs[start:start + per_fun]
+    index = [None] * len(exprs)
+    solo = set(solo)
+    groups, cur = [], []
+    for i in range(len(exprs)):
+        if i in solo:
+            groups.append(([i], True))
+        else:
+            cur.append(i)
+            if len(cur) >= per_fun:
+                groups.append((cur, False))
+                cur = []
+    if cur:
+        groups.append((cur, False))
+    solo_funs = []
+    for nfun, (members, is_solo) in enumerate(groups):
         lines.append("def f%d():" % nfun)
         lines.append("    return [")
-        for j, e in enumerate(chunk):
-            lines.append("        %s," % e)
-            index.append((nfun, j, len(lines)))
+        for j, i in enumerate(members):
+            lines.append("        %s," % exprs[i])
+            index[i] = (nfun, j, len(lines))
         lines.append("    ]")
         lines.append("")
-        nfun += 1
-    return "\n".join(lines) + "\n", index, nfun
+        if is_solo:
+            solo_funs.append(nfun)
+    return "\n".join(lines) + "\n", index, len(groups), solo_funs
 
 
 # ---------------------------------------------------------------------------
